@@ -629,7 +629,6 @@ func shortCircuitIf(b *ssa.BasicBlock) bool {
 	return false
 }
 
-
 // c07Precision: version components are arbitrarily long digit strings; every numeric test and
 // numeric comparison in package semantic goes through big.Int (convertToBigInt / SetString).
 // strconv.Atoi / ParseInt / ParseUint / ParseFloat fail (or lose precision) beyond 64 bits, so a
